@@ -575,7 +575,7 @@ def run(ctx):
     if F.lookup("C08", "abstract-without-subtypes:accepts-illegal"):
         schemas.append([E("a", expr=("oneof", [ent("b"), ent("c")])), E("b", ["a"]), E("c", ["a"], abstract=True)])
         labels.append("fixed:abstract-leaf")
-    nrand, ndirected, nmulti, norders = (300, 64, 56, 2) if quick else (1600, 480, 400, 3)
+    nrand, ndirected, nmulti, norders = (290, 96, 56, 2) if quick else (1600, 720, 400, 3)
     # directed stream: shapes on which single statements of the matcher decide the verdict (two roots with asymmetric
     # sides; sub-supertypes with their own ONEOF/AND/ANDOR next to later siblings), names permuted so that every
     # alphabetical sibling order occurs
